@@ -369,7 +369,11 @@ func Run(c Case) (res Result, sig string, err error) {
 	closed := false
 	defer func() {
 		sock.Close()
-		<-served
+		// a connection that does not wind down (a wedged rerunner) must not wedge the harness
+		select {
+		case <-served:
+		case <-time.After(2 * time.Second):
+		}
 	}()
 
 	live := map[string]*liveSub{}  // model of accepted, not yet ended subscriptions
@@ -817,7 +821,11 @@ func Run(c Case) (res Result, sig string, err error) {
 			sock.Close()
 			closed = true
 		}
-		<-served
+		select {
+		case <-served:
+		case <-time.After(10 * time.Second):
+			return res, "serve-hangs", fmt.Errorf("ServeJSONSocket does not return within 10s after the socket closed: the connection does not wind down")
+		}
 		// everything must wind down: no resolver runs, no envelopes, resources released,
 		// every Subscribe has its Unsubscribe
 		settle := func() (map[string]int, int) {
